@@ -206,6 +206,15 @@ def eval_behavioural(ctx, out, kinds, problems):
     for p in sorted((p for p in nostd if p["impl"] != p["expect"]), key=lambda p: len(p["source"]))[:1]:
         out.violations.append({"property": ctx.pid, "kind": "does-not-compile-in-a-no_std-crate", "probe_class": p["cls"], "source": p["source"],
                                "rustc_error": p.get("error", "")[:1200], "witness_key": "no_std"})
+    # the theorems speak about declarations the model accepts; a declaration the model rejects and the derive accepts is outside them
+    # (e.g. a discriminant expression the parser now reads, possibly with a value that is not the compiler's)
+    wider = [p for p in pr["probes"] if p.get("model") == "reject" and p["impl"] == "accept" and p["expect"] == "reject"]
+    cov["declarations_accepted_beyond_the_model"] = len(wider)
+    if wider and not out.violations:
+        p = sorted(wider, key=lambda p: len(p["source"]))[0]
+        out.violations.append({"property": ctx.pid, "kind": "declaration-accepted-beyond-the-model", "no_failing_input": True,
+                               "what_no_longer_checks": "accept/reject correspondence: the derive accepts a declaration that the model (and the property's domain) rejects, so the theorems about accepted declarations do not cover it",
+                               "probe_class": p["cls"], "source": p["source"]})
     out.searched = f"{ops} operations of kinds {kinds} on {b['n_subjects']} subjects: implementation == specification on all"
     return mism
 
@@ -280,6 +289,7 @@ def evaluate(ctx):
         cov["samples"] = sample_ops(ctx, BEHAV_KINDS[pid])
     elif pid == "C02":
         mism = eval_behavioural(ctx, out, ALL_BEHAV, problems)
+        beyond = [v for v in out.violations if v.get("kind") == "declaration-accepted-beyond-the-model"]
         out.violations = []
         b = ctx.behav
         sem = {sid: meta.get("sem") for sid, meta in b["subject_meta"].items()}
@@ -297,6 +307,9 @@ def evaluate(ctx):
         cov["non_variant_or_abort_results"] = len(ub)
         for m in pick_minimal(ub)[:3]:
             out.violations.append(behav_violation(ctx, m, b, "undefined-behaviour-indicator"))
+        if not out.violations:
+            # a declaration outside the model's domain is accepted: its discriminants may not be the compiler's, and the transmutes rest on them
+            out.violations += beyond
         out.searched = "all behavioural operations: no abort, no non-variant value"
         if ctx.tier == "thorough":
             import miri
